@@ -5,8 +5,10 @@ import json, os, re, glob
 PROPS = ["C01","C05","C06","C07","C08","C09","C10","C11","C12","C18","C19"]
 res = {}
 cur = None
-for l in open('/tmp/mutant-results-final.txt'):
-    m = re.match(r'=== /verif/seeded/(C\d+-\d)', l)
+import sys
+RES = sys.argv[1] if len(sys.argv) > 1 else '/tmp/mutant-results-final.txt'
+for l in open(RES):
+    m = re.match(r'=== /verif/seeded/((?:r2-)?C\d+-\d)', l)
     if m:
         cur = m.group(1); res[cur] = {}; continue
     m = re.match(r'(C\d+) exit=(\d)', l)
